@@ -1128,7 +1128,7 @@ func runCase(t *testing.T, run *vh.Run, c *Case, withDispatcher bool) {
 			for _, n := range allNodes(c.Root) {
 				for _, kv := range n.MatchRE {
 					if kv.V == "" {
-						// config Regexp.MarshalYAML writes an empty match_re pattern as null (known finding)
+						// config Regexp.MarshalYAML wrote an empty match_re pattern as null (fixed: acaf6de); own key so that a return is named
 						key = "served-config-does-not-load:empty-match_re"
 					}
 				}
